@@ -52,6 +52,10 @@ def run(ctx):
     RF.check_plan_invariants(ctx, 'R6.3')
     check_registry(ctx)
     check_serializer(ctx)
+    ctx.rule('R6.8', 'operator spacing: the blank put behind / in front of an operator does not change how the text lexes', floor=1)
+    RF.check_operator_spacing_tokens(ctx, 'R6.8')
+    ctx.rule('R6.7', 'statement edges: removing the first/last child of a statement cannot fuse it with the neighbouring statement', floor=1)
+    RF.check_statement_edges(ctx, 'R6.7')
     ctx.rule('R6.6', 'tree API contract: TokenList.insert_before/insert_after insert exactly the given token and change nothing else', floor=8)
     RF.check_tree_api_contract(ctx, 'R6.6')
     from .. import rules_base as RB
